@@ -72,3 +72,13 @@ Example C08_example :
 Proof. vm_compute. repeat split; reflexivity. Qed.
 Print Assumptions C08_nested_edit_changes_only_its_span.
 Print Assumptions C08_every_child_is_a_place.
+
+(* Non-vacuity: the value of parameter k of {{t|k=...}} that follows a Text node is such a place, two levels deep
+   when the template itself sits in a heading *)
+Example C08_nested_place_example :
+  code_hole (fun c => [NText [97%N]; NHeading ([] ++ NTemplate [NText [116%N]] ([] ++ ([NText [107%N]], c, true) :: []) :: []) 2]).
+Proof.
+  apply (CH_in [NText [97%N]] [] (fun c => NHeading c 2) (fun c => [] ++ NTemplate [NText [116%N]] ([] ++ ([NText [107%N]], c, true) :: []) :: [])).
+  - constructor.
+  - apply (CH_in [] [] (fun c => NTemplate [NText [116%N]] ([] ++ ([NText [107%N]], c, true) :: [])) (fun c => c)); constructor.
+Qed.
